@@ -117,14 +117,15 @@ func mapLookups(fn *ssa.Function, fld *types.Var) []*ssa.Lookup {
 // okOf returns a predicate recognising the comma-ok result of lookup lk.
 func okOf(lk ssa.Value) func(ssa.Value) bool {
 	return func(v ssa.Value) bool {
-		e, ok := core.Canon(v).(*ssa.Extract)
+		// also through a named result or another multi-store cell whose reaching store is unique
+		e, ok := core.ResolveLoad(core.Canon(v)).(*ssa.Extract)
 		return ok && e.Tuple == lk && e.Index == 1
 	}
 }
 
 // valueOf returns a predicate recognising the value result of lookup lk.
 func valueOfLookup(lk *ssa.Lookup, v ssa.Value) bool {
-	v = core.Canon(v)
+	v = core.ResolveLoad(core.Canon(v))
 	if lk.CommaOk {
 		e, ok := v.(*ssa.Extract)
 		return ok && e.Tuple == lk && e.Index == 0
@@ -648,7 +649,7 @@ func findLookupHelper(c *core.Ctx, fn *ssa.Function, fld *types.Var) *lookupHelp
 			for i := 0; i < res.Len(); i++ {
 				allOK, allVal := true, true
 				for _, r := range core.Returns(h) {
-					rv := core.RetVal(r, i)
+					rv := core.ResolveLoad(core.RetVal(r, i))
 					if !okOf(lk)(rv) {
 						if b, isConst := core.ConstBool(rv); !isConst || (b && !core.Guarded(h, r, core.IsTrue(okOf(lk)))) {
 							allOK = false
